@@ -114,15 +114,22 @@ def run_loop(ctx, pid, test, files, shard=40):
                      "Definition P := Eval vm_compute in property_failures cases.\nPrint P.\n" % cases)
     res = ctx.coq_eval_shards("%s_cases" % pid, texts, ["M", "P"], timeout=900)
     nm = 0
+    failing = []
     for si, r in enumerate(res):
-        if r is None:
-            continue
-        for idx in vlib.coq_nat_list(r["P"]):
-            o = obs[shards[si][idx]]
+        if r is not None:
+            failing += [shards[si][idx] for idx in vlib.coq_nat_list(r["P"])]
+    # smallest failing scenario first (it becomes replay-0)
+    failing.sort(key=lambda i: (sum(len(s.get("frames") or []) for s in obs[i]["scn"]["steps"]), i))
+    for i in failing:
+        if True:
+            o = obs[i]
             ctx.violation("%s:%s" % (pid, o["scn"]["name"].split("-")[0].rstrip("0123456789")),
                           "observed behaviour violates %s in scenario %s: %s" % (pid, o["scn"]["name"], why(o)),
                           {"scn": o["scn"], "observed": {k: o[k] for k in ("phases", "trailing", "left", "bad", "returned", "hung", "setup")},
                            "frames": [f for st in o["scn"]["steps"] for f in (st.get("frames") or [])]})
+    for si, r in enumerate(res):
+        if r is None:
+            continue
         for idx in vlib.coq_nat_list(r["M"]):
             o = obs[shards[si][idx]]
             nm += 1
